@@ -318,6 +318,19 @@ class GreedySpec(kernels.InvSpec):
     def __init__(self, seq_holder):
         self.h = seq_holder
 
+    def resolve(self, env):
+        """roles by the objects allocated before the loop: zeros(float32) = thickness, zeros(bool) = valid, zeros(int32) = partner; the first set
+        created tracks the sources, the second the targets"""
+        made = self.h.get("made", {})
+        out, e = {}, env
+        while e is not None:
+            for k, v in e.vars.items():
+                for role, obj in made.items():
+                    if v is obj:
+                        out.setdefault(role, k)
+            e = e.parent
+        return out
+
     def inv(self, k, S, G):
         q = self.h["seq"]
         s, t, j = z3.Ints("s!q t!q j!q")
@@ -366,12 +379,19 @@ class ProcessMatches(Contract):
             @staticmethod
             def zeros(shape, dtype=None):
                 sort = {"float32": "Real", "bool_": "Bool", "int32": "Int"}.get(dtype, "Real")
-                return kernels.FnArr.const(0, shape, sort, f"zeros_{sort}")
+                o = kernels.FnArr.const(0, shape, sort, f"zeros_{sort}")
+                role = {"float32": "thickness_results", "bool_": "valid_mask", "int32": "point_pairs"}.get(dtype)
+                if role:
+                    holder.setdefault("made", {}).setdefault(role, o)
+                return o
 
         def mkset(*a):
             if a:
                 return set(*a)
-            return kernels.FnArr.const(False, None, "Bool", "set")
+            o = kernels.FnArr.const(False, None, "Bool", "set")
+            made = holder.setdefault("made", {})
+            made.setdefault("source_assigned" if "source_assigned" not in made else "target_assigned", o)
+            return o
 
         it = _interp({"np": NPZ(), "set": mkset})
         f = it.function("process_matches_cpu2cpu")
